@@ -451,6 +451,6 @@ pub fn run(ctx: &Ctx) {
         ctx.require_class("random_history", "shifted_run", 0.2);
     }
     if ctx.tier == Tier::Thorough && !ctx.failed() {
-        crate::engine::fuzz::run_filter_ops(ctx, 1, 1_500_000);
+        crate::engine::fuzz::run_filter_ops(ctx, 1, 160_000);
     }
 }
